@@ -77,10 +77,10 @@ def make_on_yield(E, g, data, md, fs, hdr, lh):
         # wire size (K-CODEC length contract): header + [3 + metadata] + data + [3-byte frame length]
         wire = z3.If(I(g.count) == 0, hdr, 6) + z3.If(lm > 0, 3 + lm, 0) + ld + (3 if lh else 0)
         if E.decide(mk_bool(lm > 0), 'fragment-has-metadata'):
-            E.prove('yield:wire_size[fragment with metadata]', wire <= I(fs))
-            E.prove('yield:wire_size_documented_overshoot[fragment with metadata]', wire <= I(fs) + 3)
+            E.prove('@C03:yield:wire_size[fragment with metadata]', wire <= I(fs))
+            E.prove('@C03:yield:wire_size_documented_overshoot[fragment with metadata]', wire <= I(fs) + 3)
         else:
-            E.prove('yield:wire_size[fragment without metadata]', wire <= I(fs))
+            E.prove('@C03:yield:wire_size[fragment without metadata]', wire <= I(fs))
         g.count = mk_int(I(g.count) + 1)
         g.md_emitted = mk_int(I(g.md_emitted) + lm)
         g.d_emitted = mk_int(I(g.d_emitted) + ld)
@@ -181,7 +181,7 @@ for _hdr in (6, 10):
     for _lh in (True, False):
         for _mk in ('none', 'bytes'):
             for _dk in ('none', 'bytes'):
-                harness('c03.fragmenter[hdr=%d,length_header=%s,md=%s,data=%s]' % (_hdr, _lh, _mk, _dk), ['C03'],
+                harness('c03.fragmenter[hdr=%d,length_header=%s,md=%s,data=%s]' % (_hdr, _lh, _mk, _dk), ['C03', 'C01'],
                         functions=[ITER, FF + '.__init__', FF + '._get_next_fragment_body_size', FRAG + '.__init__',
                                    'rsocket/frame_fragmenter.py::data_to_fragments_if_required'],
                         replay='c03_fragmenter',
@@ -246,7 +246,7 @@ def _new_frame_fragment(cname):
 
 
 for _c in FRAGMENTABLE:
-    harness('c03.new_frame_fragment[%s]' % _c, ['C03'], functions=[FR + 'new_frame_fragment', FRAG + '.__init__'])(
+    harness('c03.new_frame_fragment[%s]' % _c, ['C03', 'C08', 'C01'], functions=[FR + 'new_frame_fragment', FRAG + '.__init__'])(
         _new_frame_fragment(_c))
 
 
@@ -308,13 +308,13 @@ def _get_next_fragment(cname):
 
 
 for _c in FRAGMENTABLE:
-    harness('c03.get_next_fragment[%s]' % _c, ['C03'], replay='c03_get_next_fragment',
+    harness('c03.get_next_fragment[%s]' % _c, ['C03', 'C01'], replay='c03_get_next_fragment',
             functions=[FR + 'FrameFragmentMixin.get_next_fragment', FR + 'get_header_length'],
             assumptions=['generator protocol: successive __next__() calls return the successive yields of the generator body, '
                          'then raise StopIteration (Python semantics)'])(_get_next_fragment(_c))
 
 
-@harness('c03.data_to_fragments_if_required[unfragmented]', ['C03'],
+@harness('c03.data_to_fragments_if_required[unfragmented]', ['C03', 'C01'],
          functions=['rsocket/frame_fragmenter.py::data_to_fragments_if_required'])
 def unfragmented(E):
     data, md = opt_bytes(E, 'data', 'bytes'), opt_bytes(E, 'metadata', 'bytes')
@@ -465,7 +465,7 @@ def _cache_step(cur_cls, next_cls):
 
 for _cur in [None] + list(FRAGMENTABLE):
     for _nxt in (['PayloadFrame'] if _cur else list(FRAGMENTABLE)) + (['RequestResponseFrame'] if _cur == 'PayloadFrame' else []):
-        harness('c03.cache.append[entry=%s,frame=%s]' % (_cur, _nxt), ['C03'],
+        harness('c03.cache.append[entry=%s,frame=%s]' % (_cur, _nxt), ['C03', 'C01', 'C10'],
                 functions=[CACHE + '.append', CACHE + '._frame_fragment_builder', CACHE + '._merge_frame_content_inplace',
                            CACHE + '.__init__', FR + 'is_blank'], replay='c03_cache')(_cache_step(_cur, _nxt))
 
